@@ -170,7 +170,12 @@ class Run:
             return {"ok": None}
         m = acc.iid_manager
         if k == "assign":
-            m.assign(rig.objs[op["obj"]])
+            obj = rig.objs[op["obj"]]
+            if not any(obj is o for sv in acc.services for o in [sv, *sv.characteristics]):
+                # an object that is not in this accessory's structure (e.g. of a removed accessory whose aid
+                # was reused): outside the modelled scope, the history stays oracle-only
+                self.h["foreignAssign"] = True
+            m.assign(obj)
             return {"ok": None}
         if k == "removeObj":
             return {"ok": m.remove_obj(rig.objs[op["obj"]])}
@@ -918,7 +923,9 @@ def gen_manager(rng) -> dict:
 
 
 def uses_custom(h: dict) -> bool:
-    return h.get("mainManager") is not None or any(o.get("manager") is not None for o in h["ops"])
+    """Histories the database model does not mirror (judged by the oracle only): application manager
+    subclasses, and a foreign object assigned to a manager."""
+    return bool(h.get("foreignAssign")) or h.get("mainManager") is not None or any(o.get("manager") is not None for o in h["ops"])
 
 
 def random_history(ctx: Ctx, pool, big: bool = False):
@@ -1014,7 +1021,9 @@ def random_history(ctx: Ctx, pool, big: bool = False):
             acc = rig.accessory(key)
             own = [rig.num(o) for s in acc.services for o in [s, *s.characteristics]]
             z = rng.random()
-            mine = [o for a, o in removed if a == key]
+            # only objects of THIS accessory's structure: after a removed accessory was replaced under the same
+            # aid, objects of the old one are foreign to the new manager (assigning them is documented misuse)
+            mine = [o for a, o in removed if a == key and o in own]
             if z < 0.35:
                 op = {"op": "removeObj", "aid": key, "obj": rng.choice(own)}
             elif z < 0.65:
@@ -1240,7 +1249,7 @@ def run(ctx: Ctx):
         if uses_custom(r.h):
             # application IIDManager subclasses: judged by the oracle on the real code; the database model has
             # stock managers only (the manager-level model with explicit iids is tied by the c17m stream)
-            st.hit("outcome", "custom-manager-history")
+            st.hit("outcome", "foreign-assign-history" if r.h.get("foreignAssign") else "custom-manager-history")
             continue
         if "fatal" in m:
             ctx.disagree("c17-history", r.h, m, "(model driver error)")
